@@ -1,7 +1,7 @@
 (* C01: pacers.  Kind 1: one ConstantPacer.Pace call; kind 2: a closed loop in virtual time. *)
 From Coq Require Import ZArith List Bool.
 From Coq Require Import QArith Qround.
-From V Require Import Base.Wire Base.Approx Model.Pacer Model.LinearPacer.
+From V Require Import Base.Wire Base.Approx Model.Pacer Model.LinearPacer Model.Trig Model.SinePacer.
 Import ListNotations.
 Open Scope Z_scope.
 Open Scope rd_scope.
@@ -172,8 +172,63 @@ Definition check_lin_loop : rd verdict :=
             if approx_eq_bits 30 (Qnum m) (Zpos (Qden m)) r || Qle_bool (qabs m) (1 # 1000000)%Q then VOk else VDiff 51 [t]) rates) in
   ret (combine_verdicts [vprop; vdiff]).
 
+(* ---- sine pacer: closed loop judged against verified enclosures of the schedule ------------- *)
+Definition getsine : rd sine :=
+  period <- getz ;; mf <- getz ;; mp <- getz ;; af <- getz ;; ap <- getz ;; s0 <- getfl ;;
+  ret {| s_period := period; s_mf := mf; s_mp := mp; s_af := af; s_ap := ap; s_start := fl_to_q s0 |}.
+
+(* three-valued decision of  x <= y  for x exact and y enclosed *)
+Definition le_itv_lo (x : Q) (y : itv) (slack : Q) (clause : Z) (detail : list Z) : verdict :=
+  if Qle_bool x (fst y + slack)%Q then VOk
+  else if Qle_bool x (snd y + slack)%Q then VDontCare else VProp clause detail.
+Definition ge_itv (x : Q) (y : itv) (slack : Q) (clause : Z) (detail : list Z) : verdict :=
+  if Qle_bool (snd y - slack)%Q x then VOk
+  else if Qle_bool (fst y - slack)%Q x then VDontCare else VProp clause detail.
+
+Definition sine_call (p : sine) (c0 amp : itv) (stallfree : bool) (c : Z * Z * outcome) : verdict :=
+  let '(tc, k, o) := c in
+  match o with
+  | Panic => VProp 60 [tc; k]
+  | Stop => VOk
+  | Wait w =>
+      let tr := tc + Z.max w 0 in
+      let hr := sine_H_with c0 amp p tr in
+      combine_verdicts
+        [ (* releasing the hit keeps the count within one hit of the schedule *)
+          le_itv_lo (inject_Z (k + 1)) hr 1 61 [tc; k; w];
+          (* a positive wait only when on or ahead of the schedule: k >= floor H(tc) *)
+          if 0 <? w then
+            let hc := sine_H_with c0 amp p tc in
+            if Qfloor (snd hc) <=? k then VOk else if Qfloor (fst hc) <=? k then VDontCare else VProp 62 [tc; k; w]
+          else VOk;
+          (* stall-free: not more than one hit, plus a nanosecond of schedule per hit interval, behind *)
+          if stallfree then
+            ge_itv (inject_Z (k + 1)) hr (1 + inject_Z (k + 1) * (s_mean p + s_amp p))%Q 63 [tc; k; w]
+          else VOk ]
+  end.
+
+Definition check_sine_loop : rd verdict :=
+  p <- getsine ;; stallfree <- getbool ;; calls <- getlist getcall ;; rates <- getlist (getpair getz getfl) ;;
+  let valid := sine_valid p && Qle_bool 0 (s_amp p) in
+  let near_tie := Qle_bool (qabs (s_mean p - s_amp p)) (s_mean p / inject_Z (2 ^ 40))%Q in
+  if negb valid then
+    ret (if near_tie then VDontCare
+         else combine_verdicts (map (fun '(tc, k, o) => prop_ok 64 (outcome_eqb o Stop) [tc; k]) calls))
+  else
+    let c0 := sine_c0 p in
+    let amp := sine_amp p in
+    let vprop := combine_verdicts (map (sine_call p c0 amp stallfree) calls) in
+    let vdiff := combine_verdicts
+      (map (fun '(t, r) =>
+              let e := sine_rate p t in                       (* hits per ns *)
+              let q := (fl_to_q r / inject_Z (10 ^ 9))%Q in
+              let slack := ((qabs (fst e) + qabs (snd e)) / inject_Z (2 ^ 30))%Q in
+              if Qle_bool (fst e - slack)%Q q && Qle_bool q (snd e + slack)%Q then VOk else VDiff 71 [t]) rates) in
+    ret (combine_verdicts [vprop; vdiff]).
+
 Definition check : rd verdict :=
   kind <- getz ;;
+  if kind =? 4 then check_sine_loop else
   if kind =? 1 then check_call
   else if kind =? 2 then check_loop
   else if kind =? 3 then check_lin_loop
